@@ -565,6 +565,17 @@ func (p *Path) toGo(v value) (interface{}, bool) {
 }
 
 func (p *Path) toGoTyped(t types.Type, v value) (interface{}, bool) {
+	if n, ok := v.(*native); ok {
+		if n != nil {
+			if h, ok := n.v.(*rtypeH); ok {
+				return h.t.String(), true
+			}
+		}
+		return "<host object>", true
+	}
+	if _, ok := v.(*rval); ok {
+		return "<reflect.Value>", true
+	}
 	switch v := v.(type) {
 	case string:
 		return v, true
